@@ -3,6 +3,7 @@ package c17
 import (
 	"context"
 	"fmt"
+	"hash/fnv"
 	"os"
 	"runtime"
 	"sort"
@@ -80,6 +81,51 @@ type Point struct {
 	Reaper bool  `json:"via_reaper"`
 	Slots  []int `json:"notification_slots"`
 	Rep    int   `json:"repetition,omitempty"` // only where the Go runtime resolves a tie of the two timers (see Assume)
+	// Seq: durations of the FIRST len(Seq) productions of the run (production i takes Seq[i]); every later production
+	// takes D. Empty on the constant-duration grid.
+	Seq []int64 `json:"first_productions_ns,omitempty"`
+	// QDiv: notification instants are multiples of block interval / QDiv (0 = 4)
+	QDiv int `json:"notification_quantum_div,omitempty"`
+}
+
+// dur is the duration of the i-th production of the run.
+func (p Point) dur(i int) time.Duration {
+	if i < len(p.Seq) {
+		return time.Duration(p.Seq[i])
+	}
+	return time.Duration(p.D)
+}
+
+func (p Point) maxd() time.Duration {
+	m := p.d()
+	for i := range p.Seq {
+		m = max(m, p.dur(i))
+	}
+	return m
+}
+
+// notifRange (points with a duration sequence): notifications are placed up to the instant by which every sequenced
+// production has started and ended under the property's cadence (one production per interval W, or back to back when
+// a production outlasts W; W = idle interval in lazy mode, block interval in normal mode) plus two more intervals W
+// of the tail.
+func (p Point) notifRange() time.Duration {
+	w := p.block()
+	if p.Lazy {
+		w = cfgs[p.Cfg].Idle
+	}
+	r := 2 * w
+	for i := range p.Seq {
+		r += max(w, p.dur(i))
+	}
+	return r
+}
+
+// slots is the number of notification slots of the point.
+func (p Point) slots() int {
+	if len(p.Seq) == 0 {
+		return nslots(cfgs[p.Cfg])
+	}
+	return int(p.notifRange()/p.quantum())*2 + 1
 }
 
 func (p Point) block() time.Duration { return cfgs[p.Cfg].Block }
@@ -95,7 +141,12 @@ func (p Point) delta() time.Duration {
 	return time.Nanosecond
 }
 
-func (p Point) quantum() time.Duration { return p.block() / 4 }
+func (p Point) quantum() time.Duration {
+	if p.QDiv > 0 {
+		return p.block() / time.Duration(p.QDiv)
+	}
+	return p.block() / 4
+}
 
 // nslots: grid instants k*quantum for k = 0..K with K*quantum = two idle intervals; each at -delta and +delta (k=0 only +).
 func nslots(c cfgT) int { return int(2*c.Idle/(c.Block/4))*2 + 1 }
@@ -116,6 +167,9 @@ func (p Point) instant(slot int) time.Duration {
 // one further idle gap could be seen.
 func (p Point) horizon() time.Duration {
 	c := cfgs[p.Cfg]
+	if len(p.Seq) > 0 {
+		return p.notifRange() + 2*p.maxd() + 2*c.Block + c.Idle + 10*time.Millisecond
+	}
 	return 2*c.Idle + 2*p.d() + 2*c.Block + c.Idle + 10*time.Millisecond
 }
 
@@ -148,9 +202,9 @@ func bubble(p Point) (res result) {
 	var starts []time.Duration
 	var startSeq []int
 	seqNo := 0
-	d := p.d()
 	n.M.VerifSetPublishBlock(func(ctx context.Context) error {
 		mu.Lock()
+		d := p.dur(len(starts))
 		starts = append(starts, time.Since(t0))
 		seqNo++
 		startSeq = append(startSeq, seqNo)
@@ -242,16 +296,24 @@ func (p Point) describe(res result) string {
 	if p.Reaper {
 		via = "Reaper.SubmitTxs"
 	}
-	return fmt.Sprintf("%s mode, block interval %v, idle interval %v, production takes %v, notifications (%s) at [%s] ⇒ production starts [%s] (observed until %v)",
-		mode, p.block(), p.idle(), p.d(), via, fmtTimes(res.notifs), fmtTimes(res.starts), p.horizon())
+	takes := fmt.Sprintf("production takes %v", p.d())
+	if len(p.Seq) > 0 {
+		ds := make([]time.Duration, len(p.Seq))
+		for i := range ds {
+			ds[i] = p.dur(i)
+		}
+		takes = fmt.Sprintf("the first %d productions take [%s], every later one %v", len(ds), fmtTimes(ds), p.d())
+	}
+	return fmt.Sprintf("%s mode, block interval %v, idle interval %v, %s, notifications (%s) at [%s] ⇒ production starts [%s] (observed until %v)",
+		mode, p.block(), p.idle(), takes, via, fmtTimes(res.notifs), fmtTimes(res.starts), p.horizon())
 }
 
 // inflightEnd: end of the production that is in flight when notification k is delivered (ok=false: none). A production
 // that ends at the very instant of the notification has ended: the harness delivers only after synctest.Wait().
-func inflightEnd(res result, d time.Duration, k int) (time.Duration, bool) {
+func inflightEnd(res result, p Point, k int) (time.Duration, bool) {
 	a := res.notifs[k]
 	for i, s := range res.starts {
-		if res.startSeq[i] < res.notifSeq[k] && a < s+d {
+		if d := p.dur(i); res.startSeq[i] < res.notifSeq[k] && a < s+d {
 			return s + d, true
 		}
 	}
@@ -259,7 +321,8 @@ func inflightEnd(res result, d time.Duration, k int) (time.Duration, bool) {
 }
 
 func oracle(p Point, res result, baseline func() []time.Duration) (fails []fail, unchecked int) {
-	B, I, d, T := p.block(), p.idle(), p.d(), p.horizon()
+	B, I, T := p.block(), p.idle(), p.horizon()
+	d := p.maxd() // the constant duration on the plain grid
 	S := res.starts
 	var tags []string
 	if p.Lazy {
@@ -277,6 +340,15 @@ func oracle(p Point, res result, baseline func() []time.Duration) (fails []fail,
 	default:
 		tags = append(tags, "production-longer-than-block-interval")
 	}
+	if len(p.Seq) > 0 {
+		tags = append(tags, "varying-production-durations")
+		for i := range p.Seq {
+			if p.dur(i) > B && p.dur(i+1) < p.dur(i) {
+				tags = append(tags, "overrun-followed-by-shorter-production")
+				break
+			}
+		}
+	}
 	if len(res.notifs) == 0 {
 		tags = append(tags, "no-notifications")
 	} else {
@@ -284,7 +356,7 @@ func oracle(p Point, res result, baseline func() []time.Duration) (fails []fail,
 	}
 	during := false
 	for k := range res.notifs {
-		if _, ok := inflightEnd(res, d, k); ok {
+		if _, ok := inflightEnd(res, p, k); ok {
 			during = true
 		}
 	}
@@ -321,7 +393,7 @@ func oracle(p Point, res result, baseline func() []time.Duration) (fails []fail,
 		for k, a := range res.notifs {
 			base := a
 			what := "the notification"
-			if e, ok := inflightEnd(res, d, k); ok {
+			if e, ok := inflightEnd(res, p, k); ok {
 				base, what = e, fmt.Sprintf("the end (%v) of the production that was in flight", e)
 			}
 			deadline := base + B
@@ -342,39 +414,46 @@ func oracle(p Point, res result, baseline func() []time.Duration) (fails []fail,
 				add("notified-within-block-interval", "notification at %v: no production starts within one block interval (%v) after %s, i.e. by %v; next start after the notification: %s", a, B, what, deadline, next)
 			}
 		}
-		// (3)
-		bound := I
-		if d >= I {
-			bound = d + B
+		// (3) the gap that FOLLOWS production i is bounded by the idle interval, or, when production i itself outlasts
+		// the idle interval, by its duration plus one block interval
+		bound := func(i int) time.Duration {
+			if di := p.dur(i); di >= I {
+				return di + B
+			}
+			return I
 		}
-		if S[0] > bound {
-			add("idle-interval", "the first production starts at %v, later than %v after the loop started", S[0], bound)
+		if S[0] > I {
+			add("idle-interval", "the first production starts at %v, later than %v after the loop started", S[0], I)
 		}
 		for i := 1; i < len(S); i++ {
-			if g := S[i] - S[i-1]; g > bound {
-				add("idle-interval", "no production starts for %v (between %v and %v), longer than the allowed %v (idle interval %v, production %v)", g, S[i-1], S[i], bound, I, d)
+			if g := S[i] - S[i-1]; g > bound(i-1) {
+				add("idle-interval", "no production starts for %v (between %v and %v), longer than the allowed %v (idle interval %v, production %v)", g, S[i-1], S[i], bound(i-1), I, p.dur(i-1))
 			}
 		}
-		if last := S[len(S)-1]; T-last > bound {
-			add("idle-interval", "after the production at %v nothing starts for more than %v (observed until %v)", last, bound, T)
+		if last := S[len(S)-1]; T-last > bound(len(S)-1) {
+			add("idle-interval", "after the production at %v nothing starts for more than %v (observed until %v)", last, bound(len(S)-1), T)
 		}
 		return
 	}
-	// (4)
-	lo, hi := B, B
-	if d >= B {
-		lo, hi = d, d+B
+	// (4) the gap that FOLLOWS production i is exactly one block interval, or, when production i itself takes a block
+	// interval or longer, between its duration and its duration plus one block interval
+	lohi := func(i int) (time.Duration, time.Duration) {
+		if di := p.dur(i); di >= B {
+			return di, di + B
+		}
+		return B, B
 	}
 	if S[0] > B {
 		add("normal-period", "the first production starts at %v, later than one block interval after the loop started", S[0])
 	}
 	for i := 1; i < len(S); i++ {
+		lo, hi := lohi(i - 1)
 		if g := S[i] - S[i-1]; g < lo || g > hi {
-			add("normal-period", "productions at %v and %v are %v apart; normal mode produces once per block interval (allowed gap %v..%v with a production of %v)", S[i-1], S[i], g, lo, hi, d)
+			add("normal-period", "productions at %v and %v are %v apart; normal mode produces once per block interval (allowed gap %v..%v after a production of %v)", S[i-1], S[i], g, lo, hi, p.dur(i-1))
 		}
 	}
-	if last := S[len(S)-1]; T-last > hi {
-		add("normal-period", "after the production at %v nothing starts for more than %v (observed until %v)", last, hi, T)
+	if _, hi := lohi(len(S) - 1); T-S[len(S)-1] > hi {
+		add("normal-period", "after the production at %v nothing starts for more than %v (observed until %v)", S[len(S)-1], hi, T)
 	}
 	if len(res.notifs) > 0 {
 		if b := baseline(); fmtTimes(b) != fmtTimes(S) {
@@ -404,23 +483,103 @@ type grid struct {
 	maxNotifReaper int
 	tieReps        int
 	durations      func(B time.Duration) []time.Duration
+	seq            []seqPass
+}
+
+// frac is a production duration as a fraction of the block interval.
+type frac struct{ num, den int64 }
+
+func (f frac) of(B time.Duration) time.Duration { return B * time.Duration(f.num) / time.Duration(f.den) }
+func (f frac) String() string {
+	if f.den == 1 {
+		return strconv.FormatInt(f.num, 10)
+	}
+	return fmt.Sprintf("%d/%d", f.num, f.den)
+}
+
+// seqAlphabet: durations (in block intervals) that the sequenced productions draw from: instant, shorter than the
+// interval, exactly the interval, an overrun by half an interval, an overrun by several intervals.
+var seqAlphabet = []frac{{0, 1}, {3, 10}, {1, 1}, {3, 2}, {7, 2}}
+
+// seqPass: every word of length L over seqAlphabet as the durations of the first L productions, every tail duration,
+// both modes, every set of minNotif..maxNotif notification instants on the k·(block interval/qdiv) ± δ grid up to
+// Point.notifRange.
+type seqPass struct {
+	L                  int
+	tails              []frac
+	minNotif, maxNotif int
+	qdiv               int
+}
+
+func (sp seqPass) describe() string {
+	return fmt.Sprintf("length %d, then every production takes one of %v block intervals; %d..%d notifications, quantum 1/%d block interval", sp.L, sp.tails, sp.minNotif, sp.maxNotif, sp.qdiv)
+}
+
+// lazyVariants: idle ± 1 ns orders the idle timer deterministically before/after a coinciding block timer; idle-1ns
+// with idle == block would make the idle interval shorter than the block interval (outside the property's
+// configurations), so only +1 ns there.
+func lazyVariants(c cfgT, lazy bool) []int64 {
+	if !lazy {
+		return []int64{0}
+	}
+	if c.Idle > c.Block {
+		return []int64{0, 1, -1}
+	}
+	return []int64{0, 1}
+}
+
+func (g grid) enumerateSeq(f func(p Point)) {
+	for _, sp := range g.seq {
+		word := make([]int, sp.L)
+		for ci, c := range cfgs {
+			for {
+				seq := make([]int64, sp.L)
+				for i, a := range word {
+					seq[i] = int64(seqAlphabet[a].of(c.Block))
+				}
+				for _, tail := range sp.tails {
+					for _, lazy := range []bool{true, false} {
+						for _, e := range lazyVariants(c, lazy) {
+							proto := Point{Cfg: ci, EpsNs: e, D: int64(tail.of(c.Block)), Lazy: lazy, Seq: seq, QDiv: sp.qdiv}
+							// same rule as on the plain grid: a production that outlasts both intervals leaves the order of the
+							// two timers to the runtime
+							reps := 1
+							if lazy && proto.maxd() >= proto.idle() {
+								reps = g.tieReps
+							}
+							for rep := 0; rep < reps; rep++ {
+								combos(proto.slots(), sp.maxNotif, func(s []int) {
+									if len(s) >= sp.minNotif {
+										q := proto
+										q.Slots, q.Rep = s, rep
+										f(q)
+									}
+								})
+							}
+						}
+					}
+				}
+				// next word
+				i := sp.L - 1
+				for ; i >= 0; i-- {
+					if word[i]++; word[i] < len(seqAlphabet) {
+						break
+					}
+					word[i] = 0
+				}
+				if i < 0 {
+					break
+				}
+			}
+		}
+	}
 }
 
 func (g grid) enumerate(f func(p Point)) {
 	for ci, c := range cfgs {
 		for _, d := range g.durations(c.Block) {
 			for _, lazy := range []bool{true, false} {
-				eps := []int64{0}
-				if lazy {
-					// idle ± 1 ns orders the idle timer deterministically before/after a coinciding block timer;
-					// idle-1ns with idle == block would make the idle interval shorter than the block interval
-					// (outside the property's configurations), so only +1 ns there
-					eps = []int64{0, 1}
-					if c.Idle > c.Block {
-						eps = []int64{0, 1, -1}
-					}
-				}
-				for _, e := range eps {
+				for _, e := range lazyVariants(c, lazy) {
 					// a production that outlasts BOTH intervals re-arms both timers to "end + 1 ms": the order in which
 					// select serves them is the runtime's pseudo-random pick, not ours; those points are run g.tieReps times
 					reps := 1
@@ -472,8 +631,18 @@ func TestCheck(t *testing.T) {
 			return ds
 		},
 	}
+	// production durations that VARY within one run (a history: e.g. one overrun, then short productions again)
+	if r.Thorough() {
+		g.seq = []seqPass{
+			{L: 4, tails: []frac{{0, 1}, {3, 10}}, minNotif: 0, maxNotif: 1, qdiv: 4},
+			{L: 3, tails: []frac{{0, 1}}, minNotif: 2, maxNotif: 2, qdiv: 2},
+		}
+	} else {
+		g.seq = []seqPass{{L: 3, tails: []frac{{0, 1}}, minNotif: 0, maxNotif: 1, qdiv: 4}}
+	}
 	r.Assume = []string{
-		"virtual time (testing/synctest); a production takes exactly the chosen virtual duration d; everything else the loop does takes no virtual time",
+		"virtual time (testing/synctest); a production takes exactly the chosen virtual duration (one duration d per run on the plain grid; in the duration-history part the i-th production of the run takes the i-th duration of the word and every later one the tail duration); everything else the loop does takes no virtual time",
+		"normal mode after an overrun: 'produced once per block interval' is read as: the interval that follows a production shorter than the block interval is exactly one block interval whatever happened before it, and no two productions ever start less than one block interval apart (no catch-up burst); after a production of d >= one block interval the next one starts between d and d + one block interval later",
 		"genesis time = start of the run minus one block interval, so the loop's start-up delay is 0",
 		"notifications at grid instants ±1 ns (±100 ns when the idle interval is off by 1 ns): a notification never coincides with a timer of the loop, both orders are separate grid points",
 		"when both timers of the lazy loop (or a timer and the notification channel) are ready at the same virtual instant, Go's select picks pseudo-randomly; the variants with idle interval ±1 ns enumerate both orders of idle timer vs block timer deterministically; the remaining ties (both timers re-armed to 'end of production + 1 ms' when a production outlasts BOTH intervals, i.e. block:idle 1:1 with d >= 1 block interval) are resolved by the runtime and every resolution observed is checked",
@@ -484,8 +653,8 @@ func TestCheck(t *testing.T) {
 	baseCache := map[string][]time.Duration{}
 	baselineFor := func(p Point) func() []time.Duration {
 		return func() []time.Duration {
-			q := Point{Cfg: p.Cfg, D: p.D, Lazy: false}
-			k := fmt.Sprintf("%d/%d", q.Cfg, q.D)
+			q := Point{Cfg: p.Cfg, D: p.D, Lazy: false, Seq: p.Seq, QDiv: p.QDiv}
+			k := fmt.Sprintf("%d/%d/%v", q.Cfg, q.D, q.Seq)
 			baseMu.Lock()
 			b, ok := baseCache[k]
 			baseMu.Unlock()
@@ -500,7 +669,7 @@ func TestCheck(t *testing.T) {
 		}
 	}
 
-	var unchecked, obligations, duringProd atomic.Int64
+	var unchecked, obligations, duringProd, seqEvals atomic.Int64
 	evalOne := func(p Point, verbose bool) {
 		res := runPoint(t, p)
 		if res.err != "" {
@@ -511,7 +680,7 @@ func TestCheck(t *testing.T) {
 		unchecked.Add(int64(un))
 		obligations.Add(int64(len(res.notifs)))
 		for k := range res.notifs {
-			if _, ok := inflightEnd(res, p.d(), k); ok {
+			if _, ok := inflightEnd(res, p, k); ok {
 				duringProd.Add(1)
 			}
 		}
@@ -519,17 +688,34 @@ func TestCheck(t *testing.T) {
 			fmt.Println(p.describe(res))
 		}
 		for _, f := range fails {
-			r.Report(vf.Violation{Clause: f.clause, Tags: f.tags, Msg: f.msg, Cost: 100*len(p.Slots) + 10*int(4*p.d()/p.block()) + 3*p.Cfg + int(p.EpsNs*p.EpsNs) + map[bool]int{true: 1}[p.Reaper], History: p})
+			cost := 100*len(p.Slots) + 10*int(4*p.d()/p.block()) + 3*p.Cfg + int(p.EpsNs*p.EpsNs) + map[bool]int{true: 1}[p.Reaper]
+			for i := range p.Seq {
+				cost += 10 * int(4*p.dur(i)/p.block())
+			}
+			r.Report(vf.Violation{Clause: f.clause, Tags: f.tags, Msg: f.msg, Cost: cost, History: p})
+		}
+		if len(p.Seq) > 0 && len(fails) == 0 && len(res.starts) <= len(p.Seq) {
+			r.EngineError("a duration sequence was not played out within the observation window — " + p.describe(res))
 		}
 		mode := "N"
 		if p.Lazy {
 			mode = "L"
 		}
 		sig := fmt.Sprintf("%s B=%v I=%v d=%v: %s", mode, p.block(), p.idle(), p.d(), fmtTimes(res.starts))
+		if len(p.Seq) > 0 {
+			// there are a few hundred thousand of these: keep a 64-bit digest of the same signature
+			h := fnv.New64a()
+			fmt.Fprintf(h, "%v %s", p.Seq, sig)
+			sig = fmt.Sprintf("seq:%016x", h.Sum64())
+			seqEvals.Add(1)
+		}
 		if len(fails) > 0 {
 			sig = "fail:" + fails[0].clause + " " + sig
 		}
 		r.Outcome(sig)
+		if len(p.Seq) > 0 && len(p.Slots) == 1 && p.Cfg == 1 && p.EpsNs == 0 && p.Rep == 0 && p.Seq[0] > p.Seq[1] && p.Seq[1] > p.Seq[2] && p.Seq[2] > 0 && p.Slots[0]%13 == 5 {
+			r.Sample(map[string]any{"point": p, "run": p.describe(res)})
+		}
 		if len(p.Slots) == 2 && p.Lazy && p.Cfg == 2 && p.D > 0 && p.Slots[0]%7 == 3 && p.Slots[1]%11 == 5 {
 			r.Sample(map[string]any{"point": p, "run": p.describe(res)})
 		}
@@ -569,19 +755,37 @@ func TestCheck(t *testing.T) {
 	idx := 0
 	total := 0
 	perCfg := map[string]int{}
-	g.enumerate(func(p Point) {
+	deal := func(p Point) {
 		if idx%sn == si {
 			work <- p
 		}
 		idx++
+	}
+	g.enumerate(func(p Point) {
+		deal(p)
 		total++
 		perCfg[fmt.Sprintf("%v:%v", p.block(), cfgs[p.Cfg].Idle)]++
+	})
+	seqTotal, seqNormal, seqWords := 0, 0, map[string]bool{}
+	seqPerCfg := map[string]int{}
+	g.enumerateSeq(func(p Point) {
+		deal(p)
+		seqTotal++
+		if !p.Lazy {
+			seqNormal++
+		}
+		seqWords[fmt.Sprint(p.Cfg, p.Seq, p.D)] = true
+		seqPerCfg[fmt.Sprintf("%v:%v", p.block(), cfgs[p.Cfg].Idle)]++
 	})
 	close(work)
 	wg.Wait()
 
 	if u := unchecked.Load(); u != 0 {
 		r.EngineError(fmt.Sprintf("%d notification obligations fell due after the end of the observation window", u))
+	}
+	var seqPasses []string
+	for _, sp := range g.seq {
+		seqPasses = append(seqPasses, sp.describe())
 	}
 	ks := make([]string, 0, len(perCfg))
 	for k := range perCfg {
@@ -590,7 +794,7 @@ func TestCheck(t *testing.T) {
 	sort.Strings(ks)
 	r.Finish(vf.Coverage{
 		Evaluations: evals.Load(), DistinctNontrivial: int64(r.DistinctOutcomes()), Transitions: obligations.Load(),
-		Rule:       "every grid point is one execution of the real AggregationLoop under virtual time: block:idle interval × production duration × {lazy, normal} × (lazy only) idle interval {exact, +1 ns, -1 ns} × every set of at most max_notifications instants from {k·¼ block interval ± 1 ns, k·¼ block interval <= two idle intervals}, plus (lazy) the same sets up to max_notifications_via_reaper delivered by the real Reaper.SubmitTxs; distinct = distinct (mode, configuration, production start times) signatures; transitions = notifications delivered",
+		Rule:       "every grid point is one execution of the real AggregationLoop under virtual time: block:idle interval × production duration × {lazy, normal} × (lazy only) idle interval {exact, +1 ns, -1 ns} × every set of at most max_notifications instants from {k·¼ block interval ± 1 ns, k·¼ block interval <= two idle intervals}, plus (lazy) the same sets up to max_notifications_via_reaper delivered by the real Reaper.SubmitTxs. DURATION HISTORIES (production durations that vary within one run): every word of length duration_sequences.length over duration_sequences.alphabet gives the durations of the first productions of a run, every later production takes the tail duration; × block:idle × {lazy (idle exact, +1 ns, -1 ns), normal} × every set of notification instants of the stated sizes from {k·quantum ± 1 ns <= the instant by which all sequenced productions have run at one per interval (or back to back when longer) plus two further intervals}; the oracle bounds of a gap are those of the production that precedes it (exactly one block interval in normal mode after a production shorter than the interval — in particular after an EARLIER overrun —, never less than one block interval in either mode); distinct = distinct (mode, configuration, production start times) signatures; transitions = notifications delivered",
 		Exhaustive: true,
 		Bounds: map[string]any{
 			"block:idle":                        []string{"1s:1s", "1s:2s", "1s:3s", "2s:3s"},
@@ -601,12 +805,25 @@ func TestCheck(t *testing.T) {
 			"grid_points_total":                 total,
 			"grid_points_per_block:idle":        perCfg,
 			"repetitions_of_runtime_tie_points": g.tieReps,
+			"duration_sequences": map[string]any{
+				"alphabet_in_blocks":               fmt.Sprint(seqAlphabet),
+				"passes":                           seqPasses,
+				"distinct_(block:idle,word,tail)":  len(seqWords),
+				"grid_points_total":                seqTotal,
+				"grid_points_normal_mode":          seqNormal,
+				"grid_points_lazy_mode":            seqTotal - seqNormal,
+				"grid_points_per_block:idle":       seqPerCfg,
+				"notification_delivery":            "Manager.NotifyNewTransactions only (no Reaper variant in this part)",
+				"notification_range_in_this_part":  "sum over the sequenced productions of max(W, duration) + 2W, W = idle interval (lazy) or block interval (normal)",
+				"repetitions_of_runtime_tie_points": g.tieReps,
+			},
 		},
 		Extra: map[string]any{"counts_of_the_reporting_shard": map[string]any{
 			"note":                              "measured by the process that wrote this record (shard 0 of process_shards, i.e. every 16th grid point, when sharded)",
 			"executions":                        evals.Load(),
 			"notifications_delivered":           obligations.Load(),
 			"notifications_during_a_production": duringProd.Load(),
+			"executions_with_a_duration_sequence": seqEvals.Load(),
 		}},
 	})
 }
